@@ -39,7 +39,12 @@ fn eval_on(text: &str, vars: &[(&str, &Val)]) -> Result<Val, CalcFail> {
     })) {
         Ok(Ok(v)) => Ok(Val::from_engine(&v)),
         Ok(Err(_)) => Err(CalcFail::Err),
-        Err(_) => Err(CalcFail::Broken(format!("engine panicked evaluating {}", key_text.chars().take(80).collect::<String>()))),
+        Err(_) => {
+            if std::env::var("VERIF_LOUD").is_ok() {
+                { use std::io::Write; if let Ok(mut f) = std::fs::OpenOptions::new().create(true).append(true).open("/tmp/calc_panic.log") { let _ = writeln!(f, "CALCULATOR-PANIC: {}", key_text); } }
+            }
+            Err(CalcFail::Broken(format!("engine panicked evaluating {}", key_text.chars().take(80).collect::<String>())))
+        }
     };
     MEMO.with(|m| {
         let mut m = m.borrow_mut();
